@@ -7,7 +7,7 @@
    [matches : flt -> M -> bool] (Filter::matches, property C11) and the message type [M] are arbitrary.
    A filter [flt] carries kind, enabled flag and an opaque id. *)
 From Coq Require Import List NArith Bool Permutation.
-From AdltV Require Import Base.Obs Filter.Sets Filter.SetsProofs Exec.C12.
+From AdltV Require Import Base.Obs Base.Res Base.MachInt Filter.Sets Filter.SetsProofs Exec.C12.
 Import ListNotations.
 Open Scope N_scope.
 
@@ -144,6 +144,45 @@ Section Statements.
   Qed.
 End Statements.
 
+(* export plugin with `lifecyclesToKeep`: the lifecycle lookup (evmap handle, keep_lifecycle) is arbitrary
+   ([lc_of], [known], [keeps]); [lc_filter l] is the filter the plugin builds for the lifecycle list l. *)
+Section ExportLifecycles.
+  Context {M : Type} (matches : flt -> M -> bool) (rtime lc_of : M -> N) (known : M -> bool)
+          (keeps : N -> M -> bool) (lc_filter : list N -> flt).
+  Hypothesis lc_filter_negative : forall l, f_enabled (lc_filter l) = true /\ f_kind (lc_filter l) = Negative.
+
+  (* If every message's lifecycle is in the table (else the plugin panics), then: nothing panics; after every
+     message the container is the configured set plus exactly ONE lifecycle filter, the one for the lifecycles
+     exported so far (so `pop()` always removes the previous lifecycle filter, never a configured one); a
+     message is written iff the configured set keeps it (event clause included), the current lifecycle
+     filter does not veto it and it lies in the recorded-time window; order and counters as before. *)
+  Theorem C12_export_lifecycles_spec fs to_keep has_handle tf tt msgs :
+    to_keep <> [] -> (forall m, In m msgs -> known m = true) ->
+    let s0 := export_dyn_init lc_filter fs to_keep in
+    exists tr,
+      lc_trace lc_of known keeps lc_filter has_handle s0 msgs = Ok tr /\ length tr = length msgs /\
+      Forall (fun s => x_c s = build (fs ++ [lc_filter (cur_lcs s)])) tr /\
+      let kept := map fst (filter (fun p => keep_set_spec matches fs (fst p)
+                                            && negb (matches (lc_filter (cur_lcs (snd p))) (fst p))
+                                            && in_window tf tt (rtime (fst p))) (combine msgs tr)) in
+      export_dyn_loop matches rtime lc_of known keeps lc_filter has_handle s0 tf tt msgs [] 0 0 =
+        Ok (kept, N.of_nat (length kept), N.of_nat (length msgs), last tr s0).
+  Proof. exact (export_dyn_spec matches rtime lc_of known keeps lc_filter lc_filter_negative fs to_keep has_handle tf tt msgs). Qed.
+
+  (* the lifecycle list only grows, by the lifecycle of the message being processed; and without
+     `lifecyclesToKeep` the plugin is the plain set matcher + window of C12_export_spec *)
+  Theorem C12_export_lifecycles_monotone has_handle s m s' :
+    export_lc_step lc_of known keeps lc_filter has_handle s m = Ok s' ->
+    x_exported s' = x_exported s \/ x_exported s' = x_exported s ++ [lc_of m].
+  Proof. exact (step_exported lc_of known keeps lc_filter has_handle s m s'). Qed.
+
+  Theorem C12_export_no_lifecycles fs has_handle tf tt msgs :
+    let s0 := export_dyn_init lc_filter fs [] in
+    export_dyn_loop matches rtime lc_of known keeps lc_filter has_handle s0 tf tt msgs [] 0 0 =
+    Ok (let '(o, a, b) := export_run matches rtime true (build fs) tf tt msgs in (o, a, b, s0)).
+  Proof. intros s0. exact (export_dyn_no_keep matches rtime lc_of known keeps lc_filter has_handle tf tt msgs [] 0 0 s0 eq_refl). Qed.
+End ExportLifecycles.
+
 (* why the constructors drop disabled filters ("otherwise the no pos filter -> ... logic doesnt work"):
    even for a matcher that never matches a disabled filter, a container that keeps them decides differently *)
 Theorem C12_enabled_test_in_constructor_needed :
@@ -180,5 +219,8 @@ Print Assumptions C12_set_keeps_subset_of_stream.
 Print Assumptions C12_inactive_keeps_all.
 Print Assumptions C12_matching_idxs_spec.
 Print Assumptions C12_export_spec.
+Print Assumptions C12_export_lifecycles_spec.
+Print Assumptions C12_export_lifecycles_monotone.
+Print Assumptions C12_export_no_lifecycles.
 Print Assumptions C12_enabled_test_in_constructor_needed.
 Print Assumptions C12_nonvacuous.
